@@ -28,6 +28,8 @@ def units(tier, seed):
     for spec in G.finite_family(tier):
         us.append({"spec": spec, "cap": cap, "max_execs": 40000 if tier == "quick" else 600000,
                    "max_extra_depth": 2 if tier == "quick" else 3})
+        if spec["name"].startswith("S"):
+            us.append({"spec": spec, "cap": cap, "max_execs": 40000 if tier == "quick" else 600000, "max_extra_depth": 1, "siblings": True})
     # the language after a refinement was altered the documented way and the grammar extracted again
     shapes = {s["name"].split(":")[0]: s for s in G.family_shapes()}
     for base, cls_name, field, new_t in (
@@ -116,6 +118,16 @@ def run_unit(unit) -> UnitResult:
         except Exception:
             r.count("extract_failed")
             return r
+        if unit.get("siblings") and not unit.get("reannotate"):
+            # other grammars over the same class objects (one production left out each) are extracted before g is used
+            from geneticengine.grammar.grammar import extract_grammar
+
+            for drop in [p[0] for p in spec["prods"]]:
+                try:
+                    extract_grammar([c for c in b.considered if c.__name__ != drop], b.start)
+                    r.count("sibling_grammars_extracted")
+                except Exception:  # noqa
+                    pass
         m = R.ref_min_depth(spec)[spec["start"]]
         if m >= R.INF:
             return r
